@@ -36,6 +36,9 @@ type profile struct {
 	// largest size class and choose the smallest class first.
 	alwaysRetry bool
 	retryCounts [2]int // range of WorkerTaskRetryCount; zero value = 0..3
+	// mixedDepth: half of the worlds route instance names under "a"
+	// through one invocation key extractor less.
+	mixedDepth bool
 }
 
 func drawConfig(rt *rapid.T, p *profile) worldConfig {
@@ -48,6 +51,9 @@ func drawConfig(rt *rapid.T, p *profile) worldConfig {
 	}
 	if p.routers != nil {
 		cfg.Routers = p.routers(rt)
+	}
+	if p.mixedDepth && cfg.InvDepth >= 1 {
+		cfg.MixedDepth = rapid.Bool().Draw(rt, "mixedDepth")
 	}
 	return cfg
 }
